@@ -1,0 +1,63 @@
+//go:build verif
+
+// Contracts for govc (contract-based deductive verification, see /verif/DESIGN.md).
+// Comment-only file: it adds no code and is compiled only with -tags verif.
+
+package impl
+
+// The per-table append routines (the ProcessRequest closures). Each takes the
+// open batch's columns and one submitted request object and must keep the
+// block rectangular: every column grows by exactly the request's row count,
+// and row k of the appended part is made of entry k of every request array.
+
+//@ spec fn rectSamplesReq(d *model.TimeSamplesData) bool = len(d.MFingerprint) == len(d.MTimestampNS) && len(d.MTimestampNS) == len(d.MMessage) && len(d.MMessage) == len(d.MValue) && len(d.MValue) == len(d.MType)
+
+//@ func (*SamplesAcquirer).deserialize
+//@   flag inline
+//@ func (*SamplesAcquirer).serialize
+//@   flag inline
+
+// ch-go column appends are small enough to be executed in place (their real
+// bodies are symbolically executed at each call, nothing is assumed about them).
+//@ func (*github.com/ClickHouse/ch-go/proto.ColInt64).Append
+//@   flag inline
+//@ func (*github.com/ClickHouse/ch-go/proto.ColUInt64).Append
+//@   flag inline
+//@ func (*github.com/ClickHouse/ch-go/proto.ColUInt8).Append
+//@   flag inline
+//@ func (*github.com/ClickHouse/ch-go/proto.ColFloat64).Append
+//@   flag inline
+//@ func (*github.com/ClickHouse/ch-go/proto.ColStr).Append
+//@   flag inline
+
+// samples_v3: (type, fingerprint, timestamp_ns, string, value)
+//@ spec fn sType(res []service.IColPoolRes) *service.PooledColumn[proto.ColUInt8] = unbox(res[0], "*service.PooledColumn[proto.ColUInt8]")
+//@ spec fn sFp(res []service.IColPoolRes) *service.PooledColumn[proto.ColUInt64] = unbox(res[1], "*service.PooledColumn[proto.ColUInt64]")
+//@ spec fn sTs(res []service.IColPoolRes) *service.PooledColumn[proto.ColInt64] = unbox(res[2], "*service.PooledColumn[proto.ColInt64]")
+//@ spec fn sStr(res []service.IColPoolRes) *service.PooledColumn[*proto.ColStr] = unbox(res[3], "*service.PooledColumn[*proto.ColStr]")
+//@ spec fn sVal(res []service.IColPoolRes) *service.PooledColumn[proto.ColFloat64] = unbox(res[4], "*service.PooledColumn[proto.ColFloat64]")
+//@ spec fn samplesShaped(res []service.IColPoolRes) bool = len(res) == 5 && typeis(res[0], "*service.PooledColumn[proto.ColUInt8]") && typeis(res[1], "*service.PooledColumn[proto.ColUInt64]") && typeis(res[2], "*service.PooledColumn[proto.ColInt64]") && typeis(res[3], "*service.PooledColumn[*proto.ColStr]") && typeis(res[4], "*service.PooledColumn[proto.ColFloat64]") && sType(res) != nil && sFp(res) != nil && sTs(res) != nil && sStr(res) != nil && sVal(res) != nil && sStr(res).Data != nil
+//@ spec fn samplesRows(res []service.IColPoolRes, n int) bool = len(sType(res).Data) == n && len(sFp(res).Data) == n && len(sTs(res).Data) == n && len(sStr(res).Data.Pos) == n && len(sVal(res).Data) == n
+
+//@ func NewSamplesInsertService$2 [C02]
+//@   requires shaped: samplesShaped(res)
+//@   requires rectangular-batch: samplesRows(res, len(sFp(res).Data))
+//@   requires rectangular-request: typeis(ts, "*model.TimeSamplesData") ==> unbox(ts, "*model.TimeSamplesData") != nil && rectSamplesReq(unbox(ts, "*model.TimeSamplesData"))
+//@   check same-count: result2 == nil ==> result0 == len(timeSeriesData.MTimestampNS)
+//@   check rectangular: result2 == nil ==> samplesRows(res, old(len(sFp(res).Data)) + len(timeSeriesData.MTimestampNS))
+//@   check same-columns: result2 == nil ==> len(result1) == 5 && result1[0] == res[0] && result1[1] == res[1] && result1[2] == res[2] && result1[3] == res[3] && result1[4] == res[4]
+//@   loop 1:
+//@     invariant len(sTs(res).Data) == _len + rangeindex + 1
+//@     modifies sTs(res).Data, elems(sTs(res).Data), allocated
+//@   loop 2:
+//@     invariant len(sFp(res).Data) == _len + rangeindex + 1
+//@     modifies sFp(res).Data, elems(sFp(res).Data), allocated
+//@   loop 3:
+//@     invariant len(sType(res).Data) == _len + rangeindex + 1
+//@     modifies sType(res).Data, elems(sType(res).Data), allocated
+//@   loop 4:
+//@     invariant len(sVal(res).Data) == _len + rangeindex + 1
+//@     modifies sVal(res).Data, elems(sVal(res).Data), allocated
+//@   loop 5:
+//@     invariant len(sStr(res).Data.Pos) == _len + rangeindex + 1
+//@     modifies fields(sStr(res).Data), elems(sStr(res).Data.Pos), elems(sStr(res).Data.Buf), allocated
